@@ -5,7 +5,7 @@ HERE = os.path.dirname(os.path.dirname(os.path.abspath(__file__)))
 rows = []
 for pid in sorted(os.listdir(os.path.join(HERE, "seeded"))):
     d = os.path.join(HERE, "seeded", pid)
-    if not os.path.isdir(d):
+    if not os.path.isdir(d) or pid == "harmless":
         continue
     for n in sorted(os.listdir(d)):
         mp = os.path.join(d, n, "meta.json")
